@@ -59,6 +59,10 @@ THEOREMS = [
     "C16_exact_universe",
     "C16_exact_complement",
     "C16_exact_partition",
+    "C16_linked_here",
+    "C16_relink_append",
+    "C16_relink_extend",
+    "C16_relink_pointee",
 ]
 
 KINDS = links.KINDS
@@ -103,23 +107,30 @@ def judge_obs(obs, extra, after_load, op_name, children_ok=False):
         if after_load and ci in mcells:
             if set(map(str, c["surfs"])) != set(map(str, c["leaves_s"])) or set(map(str, c["comps"])) != set(map(str, c["leaves_c"])):
                 fail("containers-not-exact-after-reading", "none", f"cell #{ci}: surfaces/complements differ from the dividers of the geometry directly after reading")
-    # (2) reverse look-ups against the forward links of the cells of the problem
+    # (2) reverse look-ups, computed independently from the forward links over problem.cells, against what the API yields
+    #     (the raw lists: by identity, "foreign" = a cell that is not an object of this case at all)
+    raw = extra["rev_raw"]
+
+    def link_cause(link):
+        return "none" if link == "here" else ("target-linked-elsewhere" if link == "other" else "target-not-linked")
+
     def rev(kind, objs, want_of, eqkey):
         for oi, o in enumerate(objs):
             want = [c for c in mcells if want_of(cells[c], oi)]
-            got = o["cells"]
+            got = raw[kind][oi]
             if got == want:
                 continue
+            if o["link"] == "other" and not want and oi not in members[kind]:
+                continue  # an object of another problem that this problem does not use: it answers for that problem
             missing = [c for c in want if c not in got]
             extra_c = [c for c in got if c not in want]
             if missing:
-                cause = "target-not-linked" if not o["link"] else "none"
-                fail("reverse-lookup-misses-cell", cause, f"{kind} #{oi}.cells misses cell(s) {missing} whose forward link points at it")
+                fail("reverse-lookup-misses-cell", link_cause(o["link"]), f"{kind} #{oi}.cells misses cell(s) {missing} whose forward link points at it")
             elif extra_c:
-                cause = "none"
-                if eqkey is not None:
+                cause = link_cause(o["link"]) if o["link"] == "other" else "none"
+                if cause == "none" and eqkey is not None:
                     # does the extra cell point at a distinct-but-equal object?
-                    if all(any(want_of(cells[c], j) for j in extra[eqkey][oi]) for c in extra_c):
+                    if all(any(want_of(cells[c], j) for j in extra[eqkey][oi]) for c in extra_c if isinstance(c, int)):
                         cause = "equal-but-distinct"
                 fail("reverse-lookup-extra-cell", cause, f"{kind} #{oi}.cells yields cell(s) {extra_c} whose forward link does not point at it")
             else:
@@ -130,30 +141,35 @@ def judge_obs(obs, extra, after_load, op_name, children_ok=False):
     rev("universe", obs["universes"], lambda c, u: c["univ"] == u, None)
     for ci, c in enumerate(cells):
         want = [d for d in mcells if d != ci and ci in cells[d]["comps"]]
-        if c["compl_by"] != want:
-            missing = [d for d in want if d not in c["compl_by"]]
+        got = raw["cell"][ci]
+        if got != want:
+            if c["link"] == "other" and not want and ci not in mcells:
+                continue
+            missing = [d for d in want if d not in got]
             if missing:
-                fail("reverse-lookup-misses-cell", "target-not-linked" if not c["link"] else "none", f"cell #{ci}.cells_complementing_this misses {missing}")
+                # a complemented cell that is not itself part of the problem is never linked by the cell that complements it
+                cause = "complemented-cell-outside-problem" if (ci not in mcells and c["link"] != "here") else link_cause(c["link"])
+                fail("reverse-lookup-misses-cell", cause, f"cell #{ci}.cells_complementing_this misses {missing}")
             else:
-                fail("reverse-lookup-extra-cell", "none", f"cell #{ci}.cells_complementing_this = {c['compl_by']}, expected {want}")
+                fail("reverse-lookup-extra-cell", link_cause(c["link"]) if c["link"] == "other" else "none", f"cell #{ci}.cells_complementing_this = {got}, expected {want}")
     # (3) every cell of the problem is in exactly one universe
     for ci in mcells:
         c = cells[ci]
-        n = sum(1 for u in obs["universes"] if ci in u["cells"])
+        n = sum(1 for ul in raw["universe"] if ci in ul)
         if c["univ"] is None:
             fail("universe-partition", "cell-without-universe", f"cell #{ci} of the problem has no universe")
         elif n != 1:
             u = c["univ"]
-            linked = isinstance(u, int) and obs["universes"][u]["link"]
-            fail("universe-partition", "none" if linked else "target-not-linked", f"cell #{ci} is in {n} universes' .cells")
-    # (4) every member of a collection of the problem is linked to the problem
+            fail("universe-partition", link_cause(obs["universes"][u]["link"]) if isinstance(u, int) else "target-not-linked", f"cell #{ci} is in {n} universes' .cells")
+    # (4) every member of a collection of the problem is linked to THAT problem (identity of the link target)
     tables = {"cell": cells, "surface": obs["surfaces"], "material": obs["materials"], "universe": obs["universes"], "transform": obs["transforms"]}
     for k in KINDS:
         for o in members[k]:
             if not isinstance(o, int):
                 continue
-            if not tables[k][o]["link"]:
-                fail("member-not-linked", "none", f"{k} #{o} is in problem.{k}s but is not linked to the problem")
+            if tables[k][o]["link"] != "here":
+                where = "linked to ANOTHER problem" if tables[k][o]["link"] == "other" else "not linked to the problem"
+                fail("member-not-linked", "linked-elsewhere" if tables[k][o]["link"] == "other" else "none", f"{k} #{o} is in problem.{k}s but is {where}")
                 break
     # (5) after add_cell_children_to_problem
     if children_ok:
@@ -217,8 +233,8 @@ def compare(case, ri, rm, upto=None):
     n = len(case["ops"]) if upto is None else upto
     for k in range(min(n, len(ri["steps"]))):
         op, si, sm = case["ops"][k], ri["steps"][k], rm["steps"][k]
-        if op[0] == "reupdate" and si.get("dups"):
-            return None
+        if (op[0] == "reupdate" and si.get("dups")) or si.get("foreign_num"):
+            return None  # merged duplicates (C18) / a number setter that asked another problem's collection
         if si["out"] != sm["out"]:
             return {"at": k, "op": op, "impl_out": si["out"], "model_out": sm["out"]}
         if "obs" not in si or "observe_failed" in si["obs"]:
@@ -379,7 +395,45 @@ def gen_case(rng, i, max_ops=10):
         if (u or 0) not in loaded_u:
             loaded_u.append(u or 0)
     universes = [rng.choice(loaded_u) if rng.random() < 0.1 and loaded_u != [0] else 7 + j for j in range(rng.randint(1, 2))]
+    # how every pool object that is not in the file comes into being (all the ways a user makes one)
+    def pick_origin(kind):
+        r = rng.random()
+        if kind == "cell":
+            return "scratch" if r < 0.6 else ("qmember" if r < 0.8 else "qremoved")
+        if r < 0.45:
+            return "scratch"
+        if r < 0.70:
+            return "deepcopy"
+        if r < 0.82:
+            return "qmember"
+        if r < 0.92:
+            return "qremoved"
+        return "shallow" if kind != "universe" else "scratch"
+
+    origins = {
+        "surface": [pick_origin("surface") for _ in range(len(surfaces) - nfs)],
+        "material": [pick_origin("material") for _ in range(len(materials) - nfm)],
+        "transform": [pick_origin("transform") if nft else "scratch" for _ in range(len(transforms) - nft)],
+        "cell": [pick_origin("cell") for _ in fresh_cells],
+        "universe": [pick_origin("universe") for _ in universes],
+    }
+    # a copy.copy shares the member's number node: it has the member's number (and is never renumbered below)
+    for j, how in enumerate(origins["surface"]):
+        if how == "shallow":
+            surfaces[nfs + j][0] = surfaces[j % nfs][0]
+    for j, how in enumerate(origins["material"]):
+        if how == "shallow":
+            materials[nfm + j][0] = materials[j % nfm][0]
+    for j, how in enumerate(origins["transform"]):
+        if how == "shallow":
+            transforms[nft + j] = transforms[j % nft]
+    shared = {k: set() for k in KINDS}  # objects that share their number node with another one: never renumbered
+    for kind, first, nfile in (("surface", nfs, nfs), ("material", nfm, nfm), ("transform", nft, nft)):
+        for j, how in enumerate(origins[kind]):
+            if how == "shallow" and nfile:
+                shared[kind] |= {first + j, j % nfile}
     case = {
+        "origins": origins,
         "surfaces": surfaces, "file_surfaces": nfs, "materials": materials, "file_materials": nfm,
         "transforms": transforms, "file_transforms": nft, "cells": cells, "fresh_cells": fresh_cells,
         "universes": universes, "ops": [],
@@ -393,6 +447,10 @@ def gen_case(rng, i, max_ops=10):
     for k in range(nops):
         r = rng.random()
         c = rng.randrange(npc)
+        if c >= len(cells) and origins["cell"][c - len(cells)] != "scratch":
+            # a cell of the OTHER problem: putting this problem's objects into it would (rightly) move them over
+            # there; it only ever enters this problem (append / extend / cells setter / as a complement)
+            c = rng.randrange(len(cells))
         if geoms[c] is None and r < 0.5 and rng.random() < 0.8:
             r = 0.0
         new = lambda d=0: gen_tree(rng, list(range(nps)), [x for x in range(npc) if x != c], depth=d, p_comp=0.15)  # noqa: E731
@@ -447,22 +505,36 @@ def gen_case(rng, i, max_ops=10):
             if rng.random() < 0.7:
                 ops.append(["set_univ", c, u])
             else:
-                ops.append(["claim", u, [rng.randrange(npc) for _ in range(rng.randint(0, 3))]])
+                own = [x for x in range(npc) if x < len(cells) or origins["cell"][x - len(cells)] == "scratch"]
+                ops.append(["claim", u, [rng.choice(own) for _ in range(rng.randint(0, 3))]])
         elif r < 0.69:
             ops.append(["set_fill", c, None if rng.random() < 0.3 else rng.randrange(npu)])
         elif r < 0.78:
             kind = rng.choice(KINDS)
             n = {"cell": npc, "surface": nps, "material": npm, "universe": npu, "transform": npt}[kind]
             if n:
-                ops.append(["set_num", kind, rng.randrange(n), rng.choice([1, 2, 3, 4, 5, 11, 12, 15, 16, 0, -1])])
+                o = rng.randrange(n)
+                first_fresh = {"cell": len(cells), "surface": nfs, "material": nfm, "universe": len(loaded_u), "transform": nft}[kind]
+                if o not in shared[kind]:  # a copy.copy shares its number node with the member it was copied from
+                    ops.append(["set_num", kind, o, rng.choice([1, 2, 3, 4, 5, 11, 12, 15, 16, 0, -1])])
         elif r < 0.88:
             kind = rng.choice(["cell", "surface", "material", "universe", "universe", "transform"])
             n = {"cell": npc, "surface": nps, "material": npm, "universe": npu, "transform": npt}[kind]
             if n:
                 # prefer the objects made from scratch: they are the ones that can be inserted
                 first_fresh = {"cell": len(cells), "surface": nfs, "material": nfm, "universe": len(loaded_u), "transform": nft}[kind]
-                o = rng.randrange(first_fresh, n) if first_fresh < n and rng.random() < 0.8 else rng.randrange(n)
-                ops.append(["append", kind, o])
+                pick = lambda: rng.randrange(first_fresh, n) if first_fresh < n and rng.random() < 0.8 else rng.randrange(n)  # noqa: E731
+                door = rng.random()
+                if door < 0.55:
+                    ops.append(["append", kind, pick()])
+                elif door < 0.70:
+                    ops.append(["extend", kind, [pick() for _ in range(rng.randint(1, 2))]])
+                elif door < 0.85:
+                    ops.append(["iadd", kind, [pick() for _ in range(rng.randint(1, 2))]])
+                else:
+                    o = pick()
+                    if o not in shared[kind]:
+                        ops.append(["append_renumber", kind, o])
         elif r < 0.93:
             kind = rng.choice(KINDS)
             n = {"cell": npc, "surface": nps, "material": npm, "universe": npu, "transform": npt}[kind]
@@ -492,6 +564,10 @@ def gen_exhaustive():
         "cells": [{"num": 1, "mat": 1, "geom": ["&", ["s", 1, False], ["s", 2, True]], "u": None, "fill": None},
                   {"num": 2, "mat": 0, "geom": ["c", 1], "u": 1, "fill": None}],
         "fresh_cells": [5], "universes": [7],
+        # a surface that is a member of another problem, a deepcopy of a material (linked to a hidden copy of the
+        # problem), a universe that was removed from another problem
+        "origins": {"surface": ["qmember", "scratch", "scratch"], "material": ["deepcopy"], "transform": ["scratch"],
+                    "cell": ["scratch"], "universe": ["qremoved"]},
     }
     leaf = lambda s: ["s", s, True]  # noqa: E731
     alpha = []
@@ -503,7 +579,9 @@ def gen_exhaustive():
               ["append", "cell", 2], ["append", "surface", 2], ["append", "universe", 2], ["append", "material", 1],
               ["remove", "cell", 0], ["remove", "surface", 1], ["set_num", "surface", 2, 2], ["set_num", "surface", 2, 9],
               ["set_num", "cell", 0, 5], ["set_num", "material", 1, 1], ["children"], ["set_materials", [1]],
-              ["set_materials", [0, 1]], ["set_cells", [1, 2]], ["reupdate"]]
+              ["set_materials", [0, 1]], ["set_cells", [1, 2]], ["reupdate"],
+              ["extend", "surface", [2]], ["iadd", "material", [1]], ["append_renumber", "surface", 3],
+              ["extend", "cell", [2]], ["iadd", "universe", [2]]]
     for a in alpha:
         yield dict(base, ops=[a])
     for a in alpha:
@@ -629,7 +707,10 @@ def run(chk):
         "and fills; 3-8 pool surfaces incl. from-scratch ones, equal copies (== but distinct objects) and number colliders) read "
         "with montepy.read_input, followed by an edit script of 1-10 steps (geometry assignment, &=, |=, in-place &=/|= "
         "on an alias, divider / left / right replacement, material, universe, claim, fill, renumbering, collection "
-        "append/remove, materials/cells setters, add_cell_children_to_problem, a final remove_duplicate_surfaces). "
+        "append/extend/+=/append_renumber/remove, materials/cells setters, add_cell_children_to_problem, a final "
+        "remove_duplicate_surfaces). Pool objects that are not in the file are made in every way a user makes one: from "
+        "scratch, copy.deepcopy of a member (linked to a hidden copy of the problem), member of / removed from a second "
+        "problem, copy.copy of a member; the identity of every _problem link (this problem / another / none) is compared. "
         "After the load and after every step every forward field and every reverse generator is read by identity. "
         "A case is non-trivial if it has >= 2 steps; distinct = distinct canonical JSON."
     )
